@@ -5,7 +5,7 @@ set -u
 here=$(cd "$(dirname "$0")" && pwd)
 seed=$1; shift
 wt=${SEED_WT:-/tmp/triage}
-sv=/tmp/verif-scratch
+sv=/tmp/verif-scratch-$(basename "$wt")
 if [ ! -d "$wt" ]; then git -C /repo worktree add -q --detach "$wt" HEAD; fi
 git -C "$wt" checkout -q --detach "$(git -C /repo rev-parse HEAD)" 2>/dev/null
 git -C "$wt" checkout -q -- . && git -C "$wt" clean -fdq
